@@ -37,6 +37,7 @@ impl Case {
 }
 
 struct Obs {
+    trace: Vec<Ev>,
     counts: BTreeMap<&'static str, u64>,
     peak: usize,
     residual: usize,
@@ -73,6 +74,10 @@ fn count_proc_fds() -> i64 {
 }
 
 fn observe(case: &Case, size: usize) -> Obs {
+    observe_with(case, size, None)
+}
+
+fn observe_with(case: &Case, size: usize, ctl: Option<std::sync::Arc<dyn shim::Controller>>) -> Obs {
     run::reset_env();
     let sc = Scratch::new();
     let dirs = Dirs::under(&sc.root, case.depth - 1);
@@ -120,10 +125,12 @@ fn observe(case: &Case, size: usize) -> Obs {
         _ => Op::Ensure(k, Pop::Value(a)),
     };
     let fds_before = count_proc_fds();
+    shim::set_controller(ctl);
     let (out, trace) = run::as_participant(0, 0, || {
         run::trigger_never();
         ops::exec(&cache, &dirs, &op, &Default::default())
     });
+    shim::set_controller(None);
     let fds_after = count_proc_fds();
     let residual = shim::open_fds().len() + shim::open_dir_streams();
     let app = dirs.app_tmp.to_string_lossy().into_owned();
@@ -181,6 +188,7 @@ fn observe(case: &Case, size: usize) -> Obs {
         Err(p) => format!("panic:{}", p),
     };
     Obs {
+        trace: trace.clone(),
         counts,
         peak: peak.max(0) as usize,
         residual,
@@ -268,6 +276,57 @@ fn record(case: &Case, rep: &mut Report) {
     }
 }
 
+/// "None stays open after the call returns" holds on error paths too: for every scenario (10 entries per
+/// directory) each call fails once in turn (two errnos per call); afterwards the shim's descriptor table and
+/// /proc/self/fd must be back where they were.
+fn fault_section(shard: Shard, rep: &mut Report) {
+    use crate::props::c18::{plausible, FailAt};
+    use crate::shim::Controller;
+    use std::sync::atomic::AtomicU64;
+    use std::sync::{Arc, Mutex};
+    let mut no = 0u64;
+    for sc in SCENARIOS.iter() {
+        for sharded in [false, true] {
+            for depth in [1usize, 2] {
+                if sc.ends_with("last_level") || sc.ends_with("promote") || sc.ends_with("all_levels") {
+                    if depth == 1 {
+                        continue;
+                    }
+                }
+                let case = Case { scenario: sc.to_string(), sharded, depth, checker: false };
+                let base = observe_with(&case, 10, None);
+                for (k, ev) in base.trace.iter().enumerate() {
+                    for a in plausible(ev, false).into_iter().take(2) {
+                        no += 1;
+                        if !shard.mine(no) {
+                            continue;
+                        }
+                        let ctl = Arc::new(FailAt { faults: vec![(k as u64, a)], kinds: vec![Some(ev.kind)], n: AtomicU64::new(0), hit: Mutex::new(vec![]) });
+                        let o = observe_with(&case, 10, Some(ctl.clone() as Arc<dyn Controller>));
+                        rep.evaluations += 1;
+                        rep.states += 1;
+                        rep.traces += 1;
+                        rep.count("fd_residue_under_fault_cases", 1);
+                        if ctl.hit.lock().unwrap().is_empty() {
+                            continue;
+                        }
+                        if o.residual != 0 || o.proc_residual != 0 {
+                            rep.violation(
+                                "resources:fd-leak-after-fault",
+                                format!(
+                                    "{} with call {} ({}) failing {:?}: {} descriptors in the shim's table and {} in /proc/self/fd left open after the call returned ({})",
+                                    case.to_json(), k, ev.func, a, o.residual, o.proc_residual, o.result
+                                ),
+                                json!({"fault_section": true}),
+                            );
+                        }
+                    }
+                }
+            }
+        }
+    }
+}
+
 fn concurrent_programs() -> Vec<(crate::sched::Program, crate::props::e1::Mode)> {
     use crate::props::e1::{self, api, planted, Mode};
     use crate::sched::POp;
@@ -341,7 +400,8 @@ pub fn run(_tier: Tier, shard: Shard, rep: &mut Report) {
         files + directory streams <= 2 (3 with a checker) from the intercepted open/close stream, nothing left open afterwards \
         (shim fd table and /proc/self/fd), no locking call. Plus, under concurrency: get and touch racing with a set of the same key or with a deleter (all schedules \
         with <= 2 preemptions, entry in the primary or the secondary shard): still at most two open attempts per cache directory, \
-        no listing, no lock. Every case is non-trivial (4 sizes compared)."
+        no listing, no lock. And on error paths: every call of every scenario failing once in turn, nothing may stay open \
+        afterwards. Every case is non-trivial (4 sizes compared)."
         .into();
     rep.assumptions = vec![
         "descriptors the scenario itself holds (the application's source temp file) are not attributed to the library".into(),
@@ -372,9 +432,15 @@ pub fn run(_tier: Tier, shard: Shard, rep: &mut Report) {
     let progs = concurrent_programs();
     let mut chk = |_pi: usize, x: &crate::sched::Execution| concurrent_check(x);
     crate::props::e1::explore_all("C20", &progs, shard, rep, &|_| crate::sched::RunOpts::default(), &mut chk, 500_000);
+    run::reset_env();
+    fault_section(shard, rep);
 }
 
 pub fn replay(case: &Value, rep: &mut Report) {
+    if case.get("fault_section").is_some() {
+        fault_section(Shard { index: 0, count: 1 }, rep);
+        return;
+    }
     if case.get("program").is_some() {
         let progs: Vec<crate::sched::Program> = concurrent_programs().into_iter().map(|p| p.0).collect();
         let mut chk = |x: &crate::sched::Execution| concurrent_check(x);
